@@ -37,12 +37,16 @@ pub fn make_module() -> KMap {
 
         match map_instance_and_args(ctx, expected_error)? {
             (KValue::Map(m), [KValue::Map(other)]) => {
-                m.data_mut().extend(
-                    other
-                        .data()
-                        .iter()
-                        .map(|(key, value)| (key.clone(), value.clone())),
-                );
+                // Extending a map with itself is a no-op,
+                // and the map can't be borrowed mutably and immutably at the same time.
+                if !m.is_same_instance(other) {
+                    m.data_mut().extend(
+                        other
+                            .data()
+                            .iter()
+                            .map(|(key, value)| (key.clone(), value.clone())),
+                    );
+                }
                 Ok(KValue::Map(m.clone()))
             }
             (KValue::Map(m), [iterable]) if iterable.is_iterable() => {
